@@ -310,9 +310,16 @@ func (s *StateMachine) ApplyTransactions(ctx context.Context, txs [][]byte, r *l
 	}
 	// set the store back to the original at the end of processing
 	originalStore := s.Store().(lib.StoreI)
-	defer s.SetStore(originalStore)
 	// create a variable to track if the block is over size
 	var oversize bool
+	defer func() {
+		s.SetStore(originalStore)
+		// transactions beyond the block size ran in a layer that is discarded here: also drop what they left in
+		// the caches, or the rest of the block (end block rewards) is computed on accounts and pools that include them
+		if oversize {
+			s.ResetCaches()
+		}
+	}()
 	var executeDuration, flushDuration time.Duration
 	// iterates over each transaction in the block
 	for i, tx := range txs {
